@@ -247,9 +247,11 @@ static void do_op(int op, bool &ret, std::vector<u8_t> &out)
   out = r.out;
 }
 
+static std::vector<u8_t> g_seedbuf;
 int main(int argc, char **argv)
 {
   wv_capture_stdout();
+  wv_shared_seed = &g_seedbuf;      // all encryptions of this driver share ONE caller-owned seed buffer (fx.seed is the same text for all)
   int nul = open("/dev/null", O_WRONLY);
   dup2(nul, 2); // getopt diagnostics
   Rng rng(4242);
